@@ -200,7 +200,7 @@ def leg_b_rows(ctx, rows, n, fill, w):
         reqs.append(["c10_unique_counts", True, True, n, fill, jr]); meta.append(("uc", (True, True), r, d))
         reqs.append(["c10_unique_values", False, n, fill, jr]); meta.append(("uv", False, r, d))
         reqs.append(["c10_unique_values", True, n, fill, jr]); meta.append(("uv", True, r, d))
-        reqs.append(["c10_excluded_unique", n, fill, jr]); meta.append(("exc_u", None, r, d))
+        reqs.append(["c10_excluded_unique", False, n, fill, jr]); meta.append(("exc_u", None, r, d))
         reqs.append(["c10_densify_row", n, fill, jr]); meta.append(("dens", None, r, d))
     outs = ctx.driver.run(reqs)
     cur = {}
@@ -478,8 +478,9 @@ def model_requests(case, w):
 
         def dec(o):
             sf, tb = o[1]["ok"]
-            return {"predicted": o[0].get("ok"), "excluded": {"ExcludedStoredFill": sf, "ExcludedTwoBelow": tb}}
-        return [first, ["c10_excluded_unique", n, fill, row]], dec
+            return {"predicted": o[0].get("ok"), "variant": {"prune": prune, "gather": not w["perm"]},
+                    "excluded": {"ExcludedStoredFill": sf, "ExcludedTwoBelow": tb}}
+        return [first, ["c10_excluded_unique", prune, n, fill, row]], dec
     if op in ("argmax", "argmin"):
         nd = len(case["shape"])
         axis = case["kw"].get("axis")
@@ -491,13 +492,15 @@ def model_requests(case, w):
         mx = op == "argmax"
 
         def dec(o):
-            return {"predicted": o[0].get("ok"), "excluded": {"ExcludedArgStoredFill": any(o[1]["ok"])}}
+            return {"predicted": o[0].get("ok"), "variant": {"prune": not w["sf_argminmax"]},
+                    "excluded": {"ExcludedArgStoredFill": any(o[1]["ok"])}}
         return [["c10_argminmax_cols", not w["sf_argminmax"], mx, nred, fill, cols], ["c10_excluded_arg_cols", mx, nred, fill, cols]], dec
     if op in ("nonzero", "argwhere", "where"):
         xj = {"shape": case["shape"], "coords": case["coords"], "data": case["data"], "fill": fill}
 
         def dec(o):
-            return {"predicted": o[0].get("ok"), "error": o[0].get("err"), "excluded": {"StoresZero": any(v == 0 for v in case["data"])}}
+            return {"predicted": o[0].get("ok"), "error": o[0].get("err"), "variant": {"prune": not w["sf_nonzero"]},
+                    "excluded": {"StoresZero": any(v == 0 for v in case["data"])}}
         return [["c10_nonzero", not w["sf_nonzero"], xj]], dec
     return None
 
@@ -760,7 +763,8 @@ def box(ctx, rng, batch, lengths, fills, sample=None):
                             for i, pred, exc in zip(bad, o[0]["ok"], o[1]["ok"]):
                                 r = part[int(i)]
                                 case = dict(stacked_case([r] * 2, n, fill), op=op, kw={"axis": 1},
-                                            observed=[int(g[i])] * 2, model={"predicted": [pred] * 2, "excluded": {"ExcludedArgStoredFill": exc}})
+                                            observed=[int(g[i])] * 2, model={"predicted": [pred] * 2, "variant": {"prune": not w["sf_argminmax"]},
+                                                   "excluded": {"ExcludedArgStoredFill": exc}})
                                 name = f"{op}:values"
                                 msg = f"row {dense_row(n, fill, r)} stored {r}: got {int(g[i])} numpy {int(ref[i])}"
                                 ctx.fail("C", name, case, msg, finding=findings.classify(PID, name, case, msg))
